@@ -43,6 +43,13 @@ def treebank(max_tokens, max_trees=6):
                 toks[k]["n"], toks[n]["n"] = toks[n]["n"], toks[k]["n"]
             flat = {"l": draw(st.sampled_from(["NP", "X"])), "e": "--", "lem": "--", "m": "--", "c": toks[:n]}
             pool.append({"sid": 1, "root": {"l": "VROOT", "e": "--", "lem": "--", "m": "--", "c": [flat, toks[n]]}})
+        if draw(st.integers(0, 9)) == 0:
+            # a 'comb': two constituents covering the odd and the even tokens (fan-outs 10 and more: two-digit fan-outs)
+            n = draw(st.integers(19, 23))
+            toks = [{"w": draw(st.sampled_from(["a", "b", "c"])), "p": draw(st.sampled_from(["NN", "VB", "ART"])), "n": i + 1, "e": "--", "lem": "--", "m": "--"} for i in range(n)]
+            odd = {"l": "X", "e": "--", "lem": "--", "m": "--", "c": toks[0::2]}
+            even = {"l": "NP", "e": "--", "lem": "--", "m": "--", "c": toks[1::2]}
+            pool.append({"sid": 1, "root": {"l": "VROOT", "e": "--", "lem": "--", "m": "--", "c": [odd, even]}})
         picks = draw(st.lists(st.integers(0, len(pool) - 1), min_size=1, max_size=max_trees))
         return [pool[i] for i in picks]
     return build()
